@@ -458,4 +458,419 @@ theorem panicSites_placed :
 theorem recursion_sites :
     Generated.selfCalls = [("common/type.rs", "dereference")] ∧ Generated.openLoops = [] := by decide
 
+/-! ### the handlers and `derive_input_handler` as a whole
+
+Every handler is a composition of the scanners and builders above; `np_step` walks such a
+composition (binds, `mapRes`, branches) and closes every leaf with the matching lemma. -/
+
+theorem noPanic_mapRes {α β : Type} (f : α → Res β) (l : List α) (h : ∀ x ∈ l, NoPanic (f x)) : NoPanic (mapRes f l) := by
+  induction l with
+  | nil => simp [mapRes]
+  | cons x xs ih =>
+    unfold mapRes
+    have hx := h x (by simp)
+    have ih' := ih (fun y hy => h y (by simp [hy]))
+    split
+    · split
+      · simp
+      · simp
+      · rename_i s hs; rw [hs] at ih'; exact absurd ih' (by simp [NoPanic, Res.isPanic])
+    · simp
+    · rename_i s hs; rw [hs] at hx; exact absurd hx (by simp [NoPanic, Res.isPanic])
+
+theorem noPanic_ite {α : Type} (c : Prop) [Decidable c] (a b : Res α) (ha : NoPanic a) (hb : NoPanic b) : NoPanic (if c then a else b) := by
+  split <;> assumption
+
+theorem collectMetas_noPanic (F : Features) (traits : TraitId → Bool) (t0 : TraitId) :
+    ∀ (ms acc : List TraitMeta), NoPanic (collectMetas F traits t0 ms acc) := by
+  intro ms
+  induction ms with
+  | nil => intro acc; simp [collectMetas]
+  | cons m ms ih =>
+    intro acc
+    simp only [collectMetas]
+    split
+    · simp
+    · rename_i t ht
+      split
+      · exact identOrPanic_noPanic m _ (traitOf_some_ident F m t ht)
+      · exact ih _
+
+theorem collectMetas_idents (F : Features) (traits : TraitId → Bool) (t0 : TraitId) :
+    ∀ (ms acc r : List TraitMeta), (∀ m ∈ acc, m.ident.isSome = true) → collectMetas F traits t0 ms acc = .ok r →
+      ∀ m ∈ r, m.ident.isSome = true := by
+  intro ms
+  induction ms with
+  | nil => intro acc r hacc h; simp [collectMetas] at h; cases h; exact hacc
+  | cons m ms ih =>
+    intro acc r hacc h
+    simp only [collectMetas] at h
+    split at h
+    · cases h
+    · rename_i t ht
+      split at h
+      · unfold identOrPanic at h; split at h <;> cases h
+      · refine ih _ r ?_ h
+        intro x hx
+        split at hx
+        · rcases List.mem_append.mp hx with hx | hx
+          · exact hacc x hx
+          · simp at hx; rw [hx]; exact traitOf_some_ident F m t ht
+        · exact hacc x hx
+
+theorem collectAttrs_noPanic (F : Features) (traits : TraitId → Bool) (t0 : TraitId) :
+    ∀ (as : List Attribute) (acc : List TraitMeta), NoPanic (collectAttrs F traits t0 as acc) := by
+  intro as
+  induction as with
+  | nil => intro acc; simp [collectAttrs]
+  | cons a as ih =>
+    intro acc
+    simp only [collectAttrs]
+    split
+    · split
+      · simp
+      · rename_i ms _
+        have := collectMetas_noPanic F traits t0 ms acc
+        split
+        · exact ih _
+        · simp
+        · rename_i s hs; rw [hs] at this; exact absurd this (by simp [NoPanic, Res.isPanic])
+    · exact ih _
+
+theorem collectAttrs_idents (F : Features) (traits : TraitId → Bool) (t0 : TraitId) :
+    ∀ (as : List Attribute) (acc r : List TraitMeta), (∀ m ∈ acc, m.ident.isSome = true) → collectAttrs F traits t0 as acc = .ok r →
+      ∀ m ∈ r, m.ident.isSome = true := by
+  intro as
+  induction as with
+  | nil => intro acc r hacc h; simp [collectAttrs] at h; cases h; exact hacc
+  | cons a as ih =>
+    intro acc r hacc h
+    simp only [collectAttrs] at h
+    split at h
+    · split at h
+      · cases h
+      · rename_i ms _
+        cases hc : collectMetas F traits t0 ms acc with
+        | ok acc' => rw [hc] at h; exact ih acc' r (collectMetas_idents F traits t0 ms acc acc' hacc hc) h
+        | diag d => rw [hc] at h; cases h
+        | panic s => rw [hc] at h; cases h
+    · exact ih acc r hacc h
+
+theorem intoTypeFromMetas_noPanic (en : Bool) : ∀ (ms : List TraitMeta) (acc : List (String × Bound)),
+    (∀ m ∈ ms, m.ident.isSome = true) → NoPanic (intoTypeFromMetas en ms acc) := by
+  intro ms
+  induction ms with
+  | nil => intro acc _; simp [intoTypeFromMetas]
+  | cons m ms ih =>
+    intro acc hm
+    have hmi := hm m (by simp)
+    have ih' := fun acc => ih acc (fun x hx => hm x (by simp [hx]))
+    simp only [intoTypeFromMetas]
+    split
+    · exact identOrPanic_noPanic m _ hmi
+    · exact identOrPanic_noPanic m _ hmi
+    · split
+      · exact identOrPanic_noPanic m _ hmi
+      · split
+        · simp
+        · rename_i ty ps _
+          have := runParams_noPanic m hmi [boundSpec true fun b (_ : Bound) => b]
+            (by intro s hs f st; simp at hs; subst hs; exact boundSpec_noPanic true _ f st) ps [] Bound.auto
+          split
+          · simp
+          · rename_i s hs; rw [hs] at this; exact absurd this (by simp [NoPanic, Res.isPanic])
+          · split
+            · simp
+            · exact ih' _
+
+theorem intoFieldFromMetas_noPanic (en : Bool) : ∀ (ms : List TraitMeta) (acc : List (String × Option String)),
+    (∀ m ∈ ms, m.ident.isSome = true) → NoPanic (intoFieldFromMetas en ms acc) := by
+  intro ms
+  induction ms with
+  | nil => intro acc _; simp [intoFieldFromMetas]
+  | cons m ms ih =>
+    intro acc hm
+    have hmi := hm m (by simp)
+    have ih' := fun acc => ih acc (fun x hx => hm x (by simp [hx]))
+    simp only [intoFieldFromMetas]
+    split
+    · exact identOrPanic_noPanic m _ hmi
+    · exact identOrPanic_noPanic m _ hmi
+    · split
+      · exact identOrPanic_noPanic m _ hmi
+      · split
+        · simp
+        · rename_i ty ps _
+          have := runParams_noPanic m hmi [ { names := ["method"], key := "method", enabled := true, apply := fun f (_ : Option String) => do let v ← meta2Path f; pure (some v) } ]
+            (by intro s hs f st; simp at hs; subst hs; exact noPanic_bind _ _ (meta2Path_noPanic f) (fun _ => by simp)) ps [] none
+          split
+          · simp
+          · rename_i s hs; rw [hs] at this; exact absurd this (by simp [NoPanic, Res.isPanic])
+          · split
+            · simp
+            · exact ih' _
+
+theorem noFieldAttrFromMeta_noPanic (m : TraitMeta) (hm : m.ident.isSome = true) : NoPanic (noFieldAttrFromMeta m) :=
+  identOrPanic_noPanic m _ hm
+
+theorem notUnion_noPanic (m : TraitMeta) (hm : m.ident.isSome = true) : NoPanic (notUnion m) :=
+  identOrPanic_noPanic m _ hm
+
+macro "np_step" : tactic => `(tactic| first
+  | exact noPanic_ok _ | exact noPanic_diag _ | exact noPanic_pure _
+  | assumption
+  | (apply identOrPanic_noPanic; assumption)
+  | (apply notUnion_noPanic; assumption)
+  | (apply boundTypeFromMeta_noPanic; assumption)
+  | (apply cmpFieldFromMeta_noPanic; assumption)
+  | (apply cloneFieldFromMeta_noPanic; assumption)
+  | (apply debugFieldFromMeta_noPanic; assumption)
+  | (apply debugTypeFromMeta_noPanic; assumption)
+  | (apply defaultTypeFromMeta_noPanic; assumption)
+  | (apply defaultFieldFromMeta_noPanic; assumption)
+  | (apply flagTypeFromMeta_noPanic; assumption)
+  | (apply noFieldAttrFromMeta_noPanic; assumption)
+  | apply collectAttrs_noPanic
+  | apply fromAttrs_noPanic
+  | apply noPanic_bind
+  | apply noPanic_mapRes
+  | intro _
+  | split
+  | dsimp only)
+
+theorem variantNoAttr_noPanic (c : Ctx) (mine : TraitId → Bool) (v : Variant) : NoPanic (variantNoAttr c mine v) := by
+  unfold variantNoAttr
+  repeat' np_step
+
+theorem cloneHandler_noPanic (c : Ctx) (m : TraitMeta) (hm : m.ident.isSome = true) : NoPanic (cloneHandler c m) := by
+  unfold cloneHandler
+  repeat' (first | apply variantNoAttr_noPanic | np_step)
+
+theorem eqLikeHandler_noPanic (c : Ctx) (m : TraitMeta) (me : TraitId) (mine : TraitId → Bool) (tp : String)
+    (comp : Option (TraitId × String)) (hm : m.ident.isSome = true) : NoPanic (eqLikeHandler c m me mine tp comp) := by
+  unfold eqLikeHandler
+  repeat' (first | apply variantNoAttr_noPanic | np_step)
+
+theorem markerHandler_noPanic (c : Ctx) (m : TraitMeta) (me p : TraitId) (b s : String) (hm : m.ident.isSome = true) :
+    NoPanic (markerHandler c m me p b s) := by
+  unfold markerHandler
+  repeat' (first | apply variantNoAttr_noPanic | np_step)
+
+theorem discriminantType_go_noPanic (ints : List String) : ∀ (as : List Attribute) (acc : Option String),
+    NoPanic (discriminantType.go ints as acc) := by
+  intro as
+  induction as with
+  | nil => intro acc; simp [discriminantType.go]
+  | cons a as ih =>
+    intro acc
+    simp only [discriminantType.go]
+    repeat' (first | apply ih | np_step)
+
+theorem discriminantType_noPanic (d : DeriveInput) : NoPanic (discriminantType d) := by
+  unfold discriminantType
+  exact discriminantType_go_noPanic _ _ _
+
+theorem ordLikeHandler_noPanic (c : Ctx) (m : TraitMeta) (me : TraitId) (mine : TraitId → Bool) (tp : String)
+    (su : List String) (co : Bool) (hm : m.ident.isSome = true) : NoPanic (ordLikeHandler c m me mine tp su co) := by
+  unfold ordLikeHandler
+  repeat' (first | apply variantNoAttr_noPanic | apply discriminantType_noPanic | np_step)
+
+theorem debugHandler_noPanic (c : Ctx) (m : TraitMeta) (hm : m.ident.isSome = true) : NoPanic (debugHandler c m) := by
+  unfold debugHandler
+  repeat' (first | apply variantNoAttr_noPanic | np_step)
+
+theorem derefLoop_noPanic (g : Field → Res Bool) (hg : ∀ f, NoPanic (g f)) : ∀ (fs : List Field) (i : Nat) (acc : Option (Nat × Field)),
+    NoPanic (derefLoop g i fs acc) := by
+  intro fs
+  induction fs with
+  | nil => intro i acc; simp [derefLoop]
+  | cons f fs ih =>
+    intro i acc
+    simp only [derefLoop]
+    repeat' (first | apply ih | apply hg | np_step)
+
+theorem derefPick_noPanic (g : Field → Res Bool) (hg : ∀ f, NoPanic (g f)) (fs : List Field) : NoPanic (derefPick g fs) := by
+  unfold derefPick
+  repeat' (first | apply derefLoop_noPanic | apply hg | np_step)
+
+theorem derefHandler_noPanic (c : Ctx) (m : TraitMeta) (me : TraitId) (hm : m.ident.isSome = true) : NoPanic (derefHandler c m me) := by
+  unfold derefHandler
+  repeat' (first | apply derefPick_noPanic | np_step)
+
+theorem defaultFieldLoop_noPanic (fa : Bool → Bool → Field → Res (Field × DefaultFieldAttr)) (hfa : ∀ a b f, NoPanic (fa a b f)) :
+    ∀ (fs : List Field) (i : Nat) (acc : Option (Nat × Field × DefaultFieldAttr)), NoPanic (defaultFieldLoop fa i fs acc) := by
+  intro fs
+  induction fs with
+  | nil => intro i acc; simp [defaultFieldLoop]
+  | cons f fs ih =>
+    intro i acc
+    simp only [defaultFieldLoop]
+    repeat' (first | apply ih | apply hfa | np_step)
+
+theorem defaultVariantLoop_noPanic (fa : Bool → Bool → Field → Res (Field × DefaultFieldAttr)) (va : Bool → Variant → Res DefaultTypeAttr)
+    (hfa : ∀ a b f, NoPanic (fa a b f)) (hva : ∀ a v, NoPanic (va a v)) :
+    ∀ (vs : List Variant) (k : Nat) (acc : Option (Nat × Variant)), NoPanic (defaultVariantLoop fa va k vs acc) := by
+  intro vs
+  induction vs with
+  | nil => intro k acc; simp [defaultVariantLoop]
+  | cons v vs ih =>
+    intro k acc
+    simp only [defaultVariantLoop]
+    repeat' (first | apply ih | apply hfa | apply hva | np_step)
+
+theorem defaultPickVariant_noPanic (fa : Bool → Bool → Field → Res (Field × DefaultFieldAttr)) (va : Bool → Variant → Res DefaultTypeAttr)
+    (hfa : ∀ a b f, NoPanic (fa a b f)) (hva : ∀ a v, NoPanic (va a v)) (vs : List Variant) : NoPanic (defaultPickVariant fa va vs) := by
+  unfold defaultPickVariant
+  repeat' (first | apply defaultVariantLoop_noPanic | apply hfa | apply hva | np_step)
+
+theorem defaultPickField_noPanic (fa : Bool → Bool → Field → Res (Field × DefaultFieldAttr))
+    (hfa : ∀ a b f, NoPanic (fa a b f)) (fs : List Field) : NoPanic (defaultPickField fa fs) := by
+  unfold defaultPickField
+  repeat' (first | apply defaultFieldLoop_noPanic | apply hfa | np_step)
+
+theorem defaultHandler_noPanic (c : Ctx) (m : TraitMeta) (hm : m.ident.isSome = true) : NoPanic (defaultHandler c m) := by
+  unfold defaultHandler
+  repeat' (first | apply defaultPickVariant_noPanic | apply defaultPickField_noPanic | np_step)
+
+theorem intoLoop_noPanic (t : String) : ∀ (fas : List (Field × List (String × Option String))) (i : Nat)
+    (acc : Option (Nat × Field × Option String)), NoPanic (intoHandler.loop t i fas acc) := by
+  intro fas
+  induction fas with
+  | nil => intro i acc; simp [intoHandler.loop]
+  | cons x xs ih =>
+    intro i acc
+    obtain ⟨f, marks⟩ := x
+    simp only [intoHandler.loop]
+    repeat' (first | apply ih | np_step)
+
+theorem noPanic_bind' {α β : Type} (r : Res α) (f : α → Res β) (hr : NoPanic r) (hf : ∀ a, r = .ok a → NoPanic (f a)) :
+    NoPanic (r >>= f) := by
+  cases r with
+  | ok a => exact hf a rfl
+  | diag d => rfl
+  | panic s => exact absurd hr (by simp [NoPanic, Res.isPanic])
+
+theorem collectAttrs_idents' {F : Features} {traits : TraitId → Bool} {t0 : TraitId} {as : List Attribute} {r : List TraitMeta}
+    (h : collectAttrs F traits t0 as [] = .ok r) : ∀ m ∈ r, m.ident.isSome = true :=
+  collectAttrs_idents F traits t0 as [] r (by simp) h
+
+macro "np_into" : tactic => `(tactic| first
+  | exact noPanic_ok _ | exact noPanic_diag _ | exact noPanic_pure _
+  | assumption
+  | (apply notUnion_noPanic; assumption)
+  | (apply intoTypeFromMetas_noPanic; first | assumption | (apply collectAttrs_idents'; assumption))
+  | (apply intoFieldFromMetas_noPanic; first | assumption | (apply collectAttrs_idents'; assumption))
+  | apply collectAttrs_noPanic
+  | apply intoLoop_noPanic
+  | apply noPanic_bind'
+  | apply noPanic_mapRes
+  | intro _
+  | split
+  | dsimp only
+  | (rename_i hs; exact absurd (show NoPanic (Res.panic _) from hs ▸ intoLoop_noPanic _ _ _ _) (by simp [NoPanic, Res.isPanic])))
+
+theorem intoHandler_noPanic (c : Ctx) (ms : List TraitMeta) (hne : ms ≠ []) (hm : ∀ m ∈ ms, m.ident.isSome = true) :
+    NoPanic (intoHandler c ms) := by
+  unfold intoHandler
+  cases ms with
+  | nil => exact absurd rfl hne
+  | cons m0 rest =>
+    have hm0 : m0.ident.isSome = true := hm m0 (by simp)
+    dsimp only
+    repeat' np_into
+
+theorem handlerFor_noPanic (c : Ctx) (t : TraitId) (ms : List TraitMeta) (hne : ms ≠ []) (hm : ∀ m ∈ ms, m.ident.isSome = true) :
+    NoPanic (handlerFor c t ms) := by
+  unfold handlerFor
+  cases ms with
+  | nil => exact absurd rfl hne
+  | cons m rest =>
+    have hm0 : m.ident.isSome = true := hm m (by simp)
+    dsimp only
+    cases t <;> dsimp only
+    · exact debugHandler_noPanic c m hm0
+    · exact cloneHandler_noPanic c m hm0
+    · exact markerHandler_noPanic c m _ _ _ _ hm0
+    · exact eqLikeHandler_noPanic c m _ _ _ _ hm0
+    · exact markerHandler_noPanic c m _ _ _ _ hm0
+    · split
+      · apply noPanic_bind
+        · exact boundTypeFromMeta_noPanic _ m hm0
+        · intro _; simp
+      · exact ordLikeHandler_noPanic c m _ _ _ _ _ hm0
+    · exact ordLikeHandler_noPanic c m _ _ _ _ _ hm0
+    · exact eqLikeHandler_noPanic c m _ _ _ _ hm0
+    · exact defaultHandler_noPanic c m hm0
+    · exact derefHandler_noPanic c m _ hm0
+    · exact derefHandler_noPanic c m _ hm0
+    · exact intoHandler_noPanic c (m :: rest) hne hm
+
+theorem collectTopAttrs_inv (F : Features) (P : List (TraitId × List TraitMeta) → Prop)
+    (step : ∀ ms acc r, P acc → collectTop F ms acc = .ok r → P r) :
+    ∀ (as : List Attribute) (acc r : List (TraitId × List TraitMeta)), P acc → collectTopAttrs F as acc = .ok r → P r := by
+  intro as
+  induction as with
+  | nil => intro acc r hacc h; simp [collectTopAttrs] at h; cases h; exact hacc
+  | cons a as ih =>
+    intro acc r hacc h
+    simp only [collectTopAttrs] at h
+    split at h
+    · split at h
+      · split at h
+        · cases h
+        · rename_i ms _
+          cases hc : collectTop F ms acc with
+          | ok acc' => rw [hc] at h; exact ih acc' r (step ms acc acc' hacc hc) h
+          | diag d => rw [hc] at h; cases h
+          | panic s => rw [hc] at h; cases h
+      · cases h
+    · exact ih acc r hacc h
+
+theorem collectTopAttrs_nonempty (F : Features) (as : List Attribute) (acc r : List (TraitId × List TraitMeta))
+    (hacc : ∀ p ∈ acc, p.2 ≠ []) (h : collectTopAttrs F as acc = .ok r) : ∀ p ∈ r, p.2 ≠ [] :=
+  collectTopAttrs_inv F (fun l => ∀ p ∈ l, p.2 ≠ []) (fun ms acc r ha hc => collectTop_nonempty F ms acc r ha hc) as acc r hacc h
+
+theorem collectTopAttrs_idents (F : Features) (as : List Attribute) (acc r : List (TraitId × List TraitMeta))
+    (hacc : ∀ p ∈ acc, ∀ m ∈ p.2, m.ident.isSome = true) (h : collectTopAttrs F as acc = .ok r) :
+    ∀ p ∈ r, ∀ m ∈ p.2, m.ident.isSome = true :=
+  collectTopAttrs_inv F (fun l => ∀ p ∈ l, ∀ m ∈ p.2, m.ident.isSome = true) (fun ms acc r ha hc => collectTop_idents F ms acc r ha hc) as acc r hacc h
+
+theorem dispatch_noPanic (c : Ctx) (map : List (TraitId × List TraitMeta))
+    (hne : ∀ p ∈ map, p.2 ≠ []) (hid : ∀ p ∈ map, ∀ m ∈ p.2, m.ident.isSome = true) :
+    ∀ ts : List TraitId, NoPanic (dispatch c map ts) := by
+  intro ts
+  induction ts with
+  | nil => simp [dispatch]
+  | cons t ts ih =>
+    simp only [dispatch]
+    split
+    · exact ih
+    · rename_i q ms hf
+      have hmem : (q, ms) ∈ map := List.mem_of_find?_eq_some hf
+      have hh := handlerFor_noPanic c t ms (hne _ hmem) (hid _ hmem)
+      split
+      · split
+        · simp
+        · simp
+        · rename_i s hs; rw [hs] at ih; exact absurd ih (by simp [NoPanic, Res.isPanic])
+      · simp
+      · rename_i s hs; rw [hs] at hh; exact absurd hh (by simp [NoPanic, Res.isPanic])
+
+/-- **C17, model level.** For every feature set and every derive input (every oracle record), the
+    expansion ends in generated items or a diagnostic - never in one of the panic sites. -/
+theorem expand_noPanic (F : Features) (d : DeriveInput) : NoPanic (expand F d) := by
+  unfold expand
+  have hc := collectTopAttrs_noPanic F d.attrs []
+  split
+  · simp
+  · rename_i s hs; rw [hs] at hc; exact absurd hc (by simp [NoPanic, Res.isPanic])
+  · rename_i map hmap
+    have hne : ∀ p ∈ map, p.2 ≠ [] := collectTopAttrs_nonempty F d.attrs [] map (by simp) hmap
+    have hid : ∀ p ∈ map, ∀ m ∈ p.2, m.ident.isSome = true := collectTopAttrs_idents F d.attrs [] map (by simp) hmap
+    have := dispatch_noPanic { F := F, traits := fun t => map.any fun p => p.1 == t, d := d } map hne hid (TraitId.all.filter F.contains)
+    dsimp only
+    split
+    · simp
+    · exact this
+
 end Educe.Attr
